@@ -271,6 +271,30 @@ def fam_flag_names(widths):
                 yield E.ExprCond(e, E.ExprId("p%d" % w, w), E.ExprId("q%d" % w, w))
 
 
+def fam_const_ops(widths):
+    """Every binary / unary / comparison operator on ALL pairs of constants of a small width (complete value product),
+    bare, under a conditional (as condition and as arm) and added to an identifier: constant folding is a rewrite like
+    any other and must preserve the value (sign mixes of sdiv/smod, shift counts >= width, ...)."""
+    E = _E()
+    for w in widths:
+        vals = list(range(1 << w)) if w <= 3 else sorted(set([0, 1, 2, 3, (1 << (w - 1)) - 1, 1 << (w - 1), (1 << (w - 1)) + 1,
+                                                            (1 << w) - 3, (1 << w) - 2, (1 << w) - 1]))
+        x = E.ExprId("x%d" % w, w)
+        for op in NARY + ["-"] + SHIFTS + DIVS + CMPS:
+            for a in vals:
+                for b in vals:
+                    e = E.ExprOp(op, E.ExprInt(a, w), E.ExprInt(b, w))
+                    yield e
+                    if e.size == w:
+                        yield E.ExprOp("+", x, e)
+                        yield E.ExprCond(e, x, E.ExprInt(1, w))
+                    else:
+                        yield E.ExprCond(e, x, E.ExprInt(1, w))
+        for op in ["-", "parity"] + CNT:
+            for a in vals:
+                yield E.ExprOp(op, E.ExprInt(a, w))
+
+
 def fam_ext_cmp(widths, nids=1):
     """Comparisons / conditions over extensions and constants: ext(X) cmp cst, ext(X) cmp ext(Y),
     (ext(X) op cst) ? A : B, smod(ext, ext|int), slices of extensions and of ops over extensions."""
